@@ -644,3 +644,104 @@ func c11ShowProbes(get func(string) []string, probes []string) string {
 	}
 	return strings.Join(out, "/")
 }
+
+// ---------------------------------------------------------------- client families (Clone)
+
+// c11Family is a family of real clients grown by a random history of SetRedirectPolicy and
+// Clone calls, with the Go side's own bookkeeping of what each one must enforce.
+type c11Family struct {
+	clients []*Client
+	want    [][]c11Pol // bookkeeping: policies client k must enforce
+	parent  []int      // -1 for client 0
+	depth   []int
+	ownSet  []bool // SetRedirectPolicy (non-empty) called on it since it exists
+	parSet  []bool // its parent was re-configured after the clone was taken
+	ops     []string
+	emptied bool
+}
+
+// c11DefaultPols is what C() installs.
+var c11DefaultPols = []c11Pol{{kind: "max", n: 10}}
+
+func c11NewFamily(root *Client, rootPols []c11Pol) *c11Family {
+	return &c11Family{clients: []*Client{root}, want: [][]c11Pol{rootPols}, parent: []int{-1}, depth: []int{0}, ownSet: []bool{false}, parSet: []bool{false}}
+}
+
+func (f *c11Family) set(i int, ps []c11Pol) {
+	real := make([]RedirectPolicy, len(ps))
+	for k, p := range ps {
+		real[k] = p.real()
+	}
+	f.clients[i].SetRedirectPolicy(real...)
+	f.ops = append(f.ops, "s."+strconv.Itoa(i)+"."+c11EncPols(ps))
+	if len(ps) == 0 {
+		f.emptied = true
+		return
+	}
+	f.want[i] = ps
+	f.ownSet[i] = true
+	for k, p := range f.parent {
+		if p == i {
+			f.parSet[k] = true
+		}
+	}
+}
+
+func (f *c11Family) clone(i int) {
+	f.clients = append(f.clients, f.clients[i].Clone())
+	f.want = append(f.want, f.want[i])
+	f.parent = append(f.parent, i)
+	f.depth = append(f.depth, f.depth[i]+1)
+	f.ownSet = append(f.ownSet, false)
+	f.parSet = append(f.parSet, false)
+	f.ops = append(f.ops, "c."+strconv.Itoa(i))
+}
+
+func (f *c11Family) encOps() string {
+	if len(f.ops) == 0 {
+		return "-"
+	}
+	return strings.Join(f.ops, "|")
+}
+
+// grow applies 1..5 random operations; gen draws a policy composition.
+func (f *c11Family) grow(r *rand.Rand, gen func() []c11Pol) {
+	for n := 1 + r.Intn(5); n > 0; n-- {
+		i := r.Intn(len(f.clients))
+		switch k := r.Intn(10); {
+		case k < 5:
+			f.clone(i)
+		case k < 9:
+			f.set(i, gen())
+		default:
+			f.set(i, nil) // SetRedirectPolicy() with no argument: must change nothing
+		}
+	}
+	if len(f.clients) == 1 {
+		f.clone(0)
+	}
+}
+
+// pick chooses the client to evaluate (clones preferred) and names the scenario.
+func (f *c11Family) pick(r *rand.Rand) (int, string) {
+	j := r.Intn(len(f.clients))
+	if j == 0 && r.Intn(3) != 0 {
+		j = 1 + r.Intn(len(f.clients)-1)
+	}
+	switch {
+	case f.parent[j] < 0:
+		return j, "family:original"
+	case f.ownSet[j]:
+		return j, "family:set-on-clone"
+	case f.depth[j] >= 2:
+		return j, "family:clone-of-clone-inherits"
+	case f.parSet[j]:
+		return j, "family:clone-inherits,parent-reconfigured-later"
+	default:
+		return j, "family:clone-inherits"
+	}
+}
+
+func (f *c11Family) show(j int) string {
+	return "clients: " + strings.Join(f.ops, " ") + " ; client " + strconv.Itoa(j)
+}
